@@ -197,8 +197,10 @@ pub fn gen_ops(seed: u64, w: &World, mix: &OpMix) -> Vec<Op> {
             5 => {
                 if r.chance(50) {
                     let mut v = vec![];
+                    // (sometimes the empty list: set assignment must then unload everything)
+                    let keep = if r.chance(8) { 0 } else { 70 };
                     for i in 0..w.resources.len() {
-                        if r.chance(70) {
+                        if r.chance(keep) {
                             v.push(i);
                         }
                     }
@@ -1184,12 +1186,18 @@ impl<'a> Exec<'a> {
                             if let Ok(f) = NetworkFilter::parse(&rule.text(), w.knobs.debug, Default::default()) {
                                 let r = maybe_other_thread(on_helper, || b.add_filter(f));
                                 dg.u64(r.is_ok() as u64);
+                                // a batch build would contain this rule unless the very same line is already
+                                // loaded: an Err for a rule that is merely *similar* to a loaded one (other tag,
+                                // other domain list) therefore shows up as a difference to the fresh engine
+                                let duplicate_line = model.rules.iter().any(|m| m.text() == rule.text());
                                 if r.is_ok() {
                                     stats.add_filter_ok += 1;
-                                    model.rules.push(rule.clone());
-                                    model.version += 1;
                                 } else {
                                     stats.add_filter_err += 1;
+                                }
+                                if r.is_ok() || !duplicate_line {
+                                    model.rules.push(rule.clone());
+                                    model.version += 1;
                                 }
                             }
                         }
